@@ -330,6 +330,7 @@ type Reported struct {
 	Length       *string
 	ETag         *string
 	Modified     *string
+	Type         *string // getcontenttype under 200, if reported
 }
 
 func ParseMultiStatus(body []byte) ([]Reported, error) {
@@ -376,6 +377,9 @@ func ParseMultiStatus(body []byte) ([]Reported, error) {
 			}
 			if ps.Prop.Modified != nil {
 				rep.Modified = ps.Prop.Modified
+			}
+			if ps.Prop.Type != nil {
+				rep.Type = ps.Prop.Type
 			}
 		}
 		out = append(out, rep)
